@@ -272,6 +272,34 @@ class RecOut(object):
         return n
 
 
+def _mk_uint(bits):
+    mask = (1 << bits) - 1
+
+    class U(int):
+        """A value read from an unsigned C array: op with another value of the same type wraps like C."""
+        __slots__ = ()
+
+        def __sub__(self, o):
+            if type(o) is type(self):
+                return type(self)((int(self) - int(o)) & mask)
+            return int.__sub__(self, o)
+
+        def __add__(self, o):
+            if type(o) is type(self):
+                return type(self)((int(self) + int(o)) & mask)
+            return int.__add__(self, o)
+
+        def __mul__(self, o):
+            if type(o) is type(self):
+                return type(self)((int(self) * int(o)) & mask)
+            return int.__mul__(self, o)
+    U.__name__ = "U%d" % bits
+    return U
+
+
+_UINT = dict((b, _mk_uint(b)) for b in (8, 16, 32, 64))
+
+
 class Err(object):
     """What a nested kernel call returns inside a definition (`err.str`)."""
     str = None
@@ -388,11 +416,24 @@ REPAIRS = [
     "kSliceNone / kMaxInt64 / ... bound to the constants of include/awkward/common.h; nullptr -> None",
     "loop bodies charged against an iteration budget (non-terminating candidate -> rejected)",
     "stores into outputs are cast to the C element type (two's-complement wrap, float32 rounding, bool)",
+    "`out = expr` where `out` is an output pointer parameter -> `out[0] = expr` (the C++ says `*out = expr`)",
 ]
 
 
 class _Rewrite(ast.NodeTransformer):
     BYREF = {"awkward_regularize_rangeslice": 2}
+
+    def __init__(self, outlists=()):
+        self.outlists = set(outlists)
+
+    def visit_Assign(self, node):
+        self.generic_visit(node)
+        # `tolength = k` where tolength is an output pointer: the C++ says `*tolength = k`
+        if len(node.targets) == 1 and isinstance(node.targets[0], ast.Name) and node.targets[0].id in self.outlists:
+            tgt = ast.Subscript(value=ast.Name(id=node.targets[0].id, ctx=ast.Load()),
+                                slice=ast.Constant(value=0), ctx=ast.Store())
+            return ast.copy_location(ast.Assign(targets=[tgt], value=node.value), node)
+        return node
 
     def visit_Expr(self, node):
         self.generic_visit(node)
@@ -433,16 +474,16 @@ class _Rewrite(ast.NodeTransformer):
     visit_While = _tick
 
 
-def compile_definition(source, name, consts, extra_globals=None):
+def compile_definition(source, name, consts, extra_globals=None, outlists=()):
     tree = ast.parse(source)
-    tree = _Rewrite().visit(tree)
+    tree = _Rewrite(outlists).visit(tree)
     ast.fix_missing_locations(tree)
     g = {
         "__builtins__": {"range": range, "ValueError": ValueError, "len": len, "abs": abs, "min": min,
                          "max": max, "bool": bool, "True": True, "False": False, "None": None,
                          "IndexError": IndexError, "sorted": sorted, "list": list, "enumerate": enumerate,
                          "zip": zip, "isinstance": isinstance, "tuple": tuple, "set": set, "sum": sum,
-                         "any": any, "all": all},
+                         "any": any, "all": all, "reversed": reversed, "int": int, "float": float},
         "__cdiv": _cdiv,
         "__tick": lambda: None,
         "float": _value,
@@ -462,9 +503,10 @@ def compile_definition(source, name, consts, extra_globals=None):
 # --------------------------------------------------------------- YAML model
 
 class Arg(object):
-    __slots__ = ("name", "typename", "t", "depth", "dir", "role", "const")
+    __slots__ = ("name", "typename", "t", "depth", "dir", "role", "const", "inout")
 
     def __init__(self, d):
+        self.inout = False
         self.name = d["name"]
         self.typename = d["type"]
         self.dir = d["dir"]
@@ -515,7 +557,9 @@ class Kernel(object):
     def function(self):
         if self._globals is None:
             try:
-                self._globals = compile_definition(self.source, self.name, self.spec.consts)
+                outl = [a.name for a in self.specializations[0].args if a.is_out and a.is_list]
+                extra = dict(getattr(self.spec, "extra_globals", {})) if self.origin != "yaml" else None
+                self._globals = compile_definition(self.source, self.name, self.spec.consts, extra, outlists=outl)
             except Exception as e:   # a definition that does not even compile
                 self.compile_error = "%s: %s" % (type(e).__name__, e)
                 self._globals = {}
@@ -533,6 +577,7 @@ class Spec(object):
         self.specializations = [s for k in self.kernels for s in k.specializations]
         self.byspec = dict((s.name, s) for s in self.specializations)
         self.tests = doc.get("tests", {})
+        self.extra_globals = {}
         self._apply_overrides()
 
     def _apply_overrides(self):
@@ -540,6 +585,23 @@ class Spec(object):
             from vlib import kernel_overrides as ko
         except ImportError:
             return
+        for name, d in getattr(ko, "INOUT", {}).items():
+            k = self.bykernel.get(name)
+            if k is None:
+                continue
+            for sp in k.specializations:
+                for a in sp.args:
+                    if a.name in d:
+                        a.dir = "out"
+                        a.inout = True
+        for name, ov in getattr(ko, "DEFINITION_PATCHES", {}).items():
+            k = self.bykernel.get(name)
+            if k is None or not all(old in k.source for old, _new in ov["replace"]):
+                continue
+            for old, new in ov["replace"]:
+                k.source = k.source.replace(old, new)
+            k.origin = "yaml-patched"
+            k.override_reason = ov["reason"]
         for name, ov in getattr(ko, "DEFINITION_OVERRIDES", {}).items():
             k = self.bykernel.get(name)
             if k is None:
@@ -547,8 +609,16 @@ class Spec(object):
             if ov.get("only_if_yaml_contains") and ov["only_if_yaml_contains"] not in k.source:
                 continue
             k.source = ov["source"]
-            k.origin = "override" if k.yaml_has_definition else "harness"
+            k.origin = "yaml-replaced"
             k.override_reason = ov["reason"]
+        for name, ov in getattr(ko, "HARNESS_DEFINITIONS", {}).items():
+            k = self.bykernel.get(name)
+            if k is None or k.yaml_has_definition:
+                continue       # the YAML gained a definition: it takes precedence
+            k.source = ov["source"]
+            k.origin = "harness"
+            k.override_reason = ov["reason"]
+        self.extra_globals = ko.extra_globals() if hasattr(ko, "extra_globals") else {}
 
 
 _CACHE = {}
@@ -591,8 +661,43 @@ def typed_input(arg, value):
     return cast(arg.t, value)
 
 
-def run_definition(spec, args, budget=DEFAULT_BUDGET):
+def has_unsigned_inputs(spec):
+    return any(a.is_list and not a.is_out and a.t.kind == "uint" for a in spec.args)
+
+
+def same_result(r1, r2):
+    return r1.status == r2.status and r1.extents == r2.extents and _same_outputs(r1.outputs, r2.outputs)
+
+
+def _same_outputs(a, b):
+    if a.keys() != b.keys():
+        return False
+    for k in a:
+        x, y = a[k], b[k]
+        if isinstance(x, list):
+            if len(x) != len(y) or any(not _same_map(p, q) for p, q in zip(x, y)):
+                return False
+        elif not _same_map(x, y):
+            return False
+    return True
+
+
+def _same_map(x, y):
+    if x.keys() != y.keys():
+        return False
+    for i, v in x.items():
+        w = y[i]
+        if v != w and not (v != v and w != w):
+            return False
+    return True
+
+
+def run_definition(spec, args, budget=DEFAULT_BUDGET, unsigned_wrap=False):
     """Run the kernel's definition on `args` typed as in specialization `spec`.
+
+    unsigned_wrap: values read from unsigned input arrays behave like C operands of that type
+    (uint32 - uint32 wraps modulo 2**32 before any widening), the one place where the unbounded
+    integers of the YAML text and the compiled template can part on *invalid* input.
 
     args: {name: value} for every `in` argument (lists for arrays) and, for
     in/out arguments, the initial contents of the output list.
@@ -607,8 +712,14 @@ def run_definition(spec, args, budget=DEFAULT_BUDGET):
         return res
     call = {}
     outs = {}
+    nested = {}
     for a in spec.args:
-        if a.is_out:
+        if a.is_out and a.depth == 2:
+            # a table of output arrays: the tuple gives their number
+            subs = [RecOut("%s[%d]" % (a.name, j), a.t) for j in range(int(args.get(a.name, 0)))]
+            nested[a.name] = subs
+            call[a.name] = RecIn(a.name, subs)
+        elif a.is_out:
             init = args.get(a.name)
             if init is not None:
                 init = [cast(a.t, x) for x in init]
@@ -622,7 +733,11 @@ def run_definition(spec, args, budget=DEFAULT_BUDGET):
             res.inputs[a.name] = r
             call[a.name] = r
         elif a.depth == 1:
-            r = RecIn(a.name, [cast(a.t, x) for x in args[a.name]])
+            data = [cast(a.t, x) for x in args[a.name]]
+            if unsigned_wrap and a.t.kind == "uint":
+                U = _UINT[a.t.bits]
+                data = [U(x) for x in data]
+            r = RecIn(a.name, data)
             res.inputs[a.name] = r
             call[a.name] = r
         else:
@@ -637,6 +752,11 @@ def run_definition(spec, args, budget=DEFAULT_BUDGET):
     except SpecReject as e:
         res.status = "rejected"
         res.reason = e.reason
+        res.detail = str(e)[:200]
+    except IndexError as e:
+        # only harness-written references index plain Python lists
+        res.status = "rejected"
+        res.reason = "index-out-of-bounds"
         res.detail = str(e)[:200]
     except ZeroDivisionError as e:
         res.status = "rejected"
@@ -657,6 +777,9 @@ def run_definition(spec, args, budget=DEFAULT_BUDGET):
     for name, o in outs.items():
         res.outputs[name] = o.w
         res.extents[name] = o.extent()
+    for name, subs in nested.items():
+        res.outputs[name + "[]"] = [o.w for o in subs]
+        res.extents[name + "[]"] = [o.extent() for o in subs]
     for name, r in res.inputs.items():
         res.tight[name] = (r.n == 0) or (r.maxread == r.n - 1)
     return res
